@@ -117,6 +117,13 @@ def stD (w : World) (cfg : Cfg) : Ty → Obj → Res
         let errs := if cfg.forbid && !ex.isEmpty then errs ++ [(Option.none, Err.extra ex)] else errs
         if !errs.isEmpty then .error (.cve errs) else .ok (.dict res)
   | .td _, _ => if cfg.gen then .error (.cve [(Option.none, .leaf)]) else .error .leaf
+  | .union cs hn, o =>
+      -- the union hook adds no group of its own: the decision function's exception is a bare one, the
+      -- chosen class's error tree propagates unchanged
+      match unionPick w cs hn o with
+      | .ok m => if h : m ∈ cs then stD w cfg (.cls m) o else .error .leaf
+      | .none => .ok .none
+      | _ => .error .leaf
   | _, _ => .error .leaf
 termination_by t x => (sizeOf x, sizeOf t)
 decreasing_by
@@ -124,6 +131,7 @@ decreasing_by
     | decreasing_tactic
     | (apply Prod.Lex.left; exact iterItems_lt h)
     | (apply Prod.Lex.left; have := sizeOf_keysOf_lt kvs; simp; omega)
+    | (apply Prod.Lex.right; have := List.sizeOf_lt_of_mem h; simp at this ⊢; omega)
 /-- homogeneous collection: every element is tried; failures are recorded with their index.
 For sets an unhashable result is a failure of that element (`res.add` is inside the `try`). -/
 def stDL (w : World) (cfg : Cfg) (t : Ty) (isSet : Bool) (ix : Nat) : List Obj → List Obj × List (Option Obj × Err)
